@@ -75,6 +75,7 @@ HUB = Hub()
 # ---------------------------------------------------------------------------------------------------------------------
 
 LOADED = {}
+PROXIES = {}      # role -> the most recently created proxy (lets a fault swap the collaborator behind it)
 
 
 class Proxy(object):
@@ -90,6 +91,7 @@ class Proxy(object):
         object.__setattr__(self, "_target", target)
         object.__setattr__(self, "_role", role)
         LOADED[role] = target     # lets a resumed process find the collaborators of an unpickled mediator
+        PROXIES[role] = self
 
     def __getstate__(self):
         return (self._target, self._role)
@@ -612,3 +614,31 @@ def install_time_seam():
         return result
     Time.from_float = staticmethod(from_float)
     _time_seam["done"] = True
+
+
+def pickle_round_trip(role, keep_identity_of):
+    """Fault: the collaborator behind a proxy is replaced by its own dill round trip (what a dump does to it), with
+    the objects in ``keep_identity_of`` (the event handlers) pickled by reference so that the rest of the running
+    system still refers to the same objects.  Returns the new collaborator."""
+    import io
+    import dill
+    proxy = PROXIES[role]
+    target = object.__getattribute__(proxy, "_target")
+    index = {id(obj): i for i, obj in enumerate(keep_identity_of)}
+    buffer = io.BytesIO()
+
+    class Pickler(dill.Pickler):
+        def persistent_id(self, obj):
+            i = index.get(id(obj))
+            return ("kept", i) if i is not None else None
+
+    class Unpickler(dill.Unpickler):
+        def persistent_load(self, pid):
+            return keep_identity_of[pid[1]]
+
+    Pickler(buffer).dump(target)
+    buffer.seek(0)
+    fresh = Unpickler(buffer).load()
+    object.__setattr__(proxy, "_target", fresh)
+    LOADED[role] = fresh
+    return fresh
